@@ -1363,6 +1363,106 @@ def rule_ueg_moment(chk, prog):
 
 
 # ----------------------------------------------------------------------------
+# ueg-expnt: the UEG exponent used by the closed forms is what the callers assume it is
+# ----------------------------------------------------------------------------
+def rule_ueg_expnt(chk, prog):
+    """_get_ueg_expnt(a, t, rho) is called by every NLDF ueg_vector with (i) the GGA grad_mul in place of
+    t when sl_level == 'GGA' and (ii) sums of parameter sets (version j: a0i + a0t, t0i + t0t).  Both are
+    right only if, at the UEG point (sigma = 0, tau = tau_unif), the exponent does not depend on t and is
+    linear in a - and for (i) it must be the GGA exponent function at the UEG.  Decided on the canonical
+    form of the exponent function evaluated at the arguments _get_ueg_expnt passes."""
+    mod = prog.module(ST)
+    fn = mod.functions.get("_get_ueg_expnt")
+    gga = mod.functions.get("get_cider_exponent_gga")
+    if fn is None or gga is None:
+        raise core.AnalysisError("_get_ueg_expnt / get_cider_exponent_gga vanished from %s" % ST)
+    names = [a.arg for a in fn.args.args]
+    if len(names) != 3:
+        raise core.AnalysisError("_get_ueg_expnt: expected (aval, tval, rho)")
+    assume = {}
+    for f in mod.functions.values():
+        for n in pf.walk_no_nested(f):
+            if isinstance(n, ast.Call) and pf.call_name(n) == "isinstance" and len(n.args) == 2 \
+                    and "ndarray" in pf.src(n.args[1]):
+                assume[pf.src(n)] = True  # arrays in, arrays out: the scalar wrapper does not change the formula
+
+    def run(f, vals, kws=None):
+        env = mono.bind_params(f, vals, skip_self=False)
+        for k, v in (kws or {}).items():
+            env[k] = v
+
+        def hook(node, ev, _d=[0]):
+            g = node.func
+            if isinstance(g, ast.Name) and g.id in mod.functions and _d[0] < 4:
+                callee = mod.functions[g.id]
+                vs = [ev._safe(lambda a=a: ev.ev(a)) for a in node.args]
+                cenv = mono.bind_params(callee, vs, skip_self=False)
+                pn = [a.arg for a in callee.args.args]
+                for kw in node.keywords:
+                    if kw.arg in pn:
+                        cenv[kw.arg] = ev._safe(lambda kw=kw: ev.ev(kw.value))
+                sub = Evaluator(env=cenv, assume=assume, call=hook, module_consts=mod.assigns)
+                _d[0] += 1
+                try:
+                    return sub.run_function(callee)
+                finally:
+                    _d[0] -= 1
+            return None
+
+        ev = Evaluator(env=env, assume=assume, call=hook, module_consts=mod.assigns)
+        return ev.run_function(f)
+
+    A, T, RHO = Poly.name("A"), Poly.name("T"), Poly.name("RHO")
+    E = run(fn, [A, T, RHO])
+    inst = "_get_ueg_expnt(A, T, RHO)"
+    if not isinstance(E, Poly):
+        raise core.AnalysisError("_get_ueg_expnt is outside the monomial fragment at the UEG point: %r" % (E,))
+    E = mono.drop_inactive_clamps(E)
+    chk.extra["ueg_exponent"] = mono.show(E)
+    clamps = [a for a in E.atoms() if a[0] == "f" and a[1] in ("max", "min")
+              and any(mono.occurs(mono.from_key(k), ("n", v)) for k in a[2] for v in ("A", "T"))]
+    if clamps:
+        chk.violation("ueg-expnt", ST, "_get_ueg_expnt", "clamp in the UEG exponent", fn.lineno,
+                      "at the UEG point the exponent is  %s : it contains the clamp %s, which is active for part of the "
+                      "accepted parameters (only a0 > 0 and multipliers >= 0 are enforced).  The closed forms call "
+                      "_get_ueg_expnt with the GGA grad_mul in place of tau_mul and with sums of parameter sets, which is "
+                      "right only if the tau_mul terms cancel exactly and the exponent is linear in a0" % (
+                          mono.show(E)[:200], ", ".join(mono.show_atom(a) for a in clamps)), instance=inst + " clamp-free")
+        return
+    chk.ok("ueg-expnt", inst + " clamp-free")
+    checks = []
+    try:
+        dT = mono.diff(E, ("n", "T"))
+        checks.append(("independent of tval", mono.definitely_different(dT, mono.ZERO),
+                       "d/dT = %s" % mono.show(dT)[:120],
+                       "GGA-level settings pass grad_mul in this slot and version j passes t0i + t0t"))
+        cA, rest = mono.coefficient(E, ("n", "A"))
+        lin = "equal" if rest.is_zero() and not mono.occurs(cA, ("n", "A")) else "different"
+        checks.append(("linear in aval", lin, "remainder %s" % mono.show(rest)[:100],
+                       "version j passes a0i + a0t and relies on exponent(a0i + a0t) = exponent(a0i) + exponent(a0t)"))
+    except NotComparable as e:
+        chk.note("ueg-expnt", ST, "not decided: %s" % e)
+        checks = []
+    G = run(gga, [RHO, mono.ZERO], {"a0": A, "grad_mul": mono.ZERO, "rhocut": mono.ZERO, "nspin": mono.ONE})
+    if isinstance(G, tuple) and G and isinstance(G[0], Poly):
+        Gp = mono.drop_inactive_clamps(G[0])
+        checks.append(("equal to get_cider_exponent_gga at the UEG", mono.definitely_different(E, Gp),
+                       "GGA form %s" % mono.show(Gp)[:100],
+                       "for sl_level == 'GGA' the kernel exponent is computed by get_cider_exponent_gga"))
+    else:
+        chk.note("ueg-expnt", ST, "get_cider_exponent_gga at the UEG is outside the fragment: %r" % (G,))
+    for what, verdict, detail, why in checks:
+        i2 = "%s %s" % (inst, what)
+        if verdict == "equal":
+            chk.ok("ueg-expnt", i2)
+        elif verdict == "different":
+            chk.violation("ueg-expnt", ST, "_get_ueg_expnt", what, fn.lineno,
+                          "the UEG exponent  %s  is not %s (%s); %s" % (mono.show(E)[:160], what, detail, why), instance=i2)
+        else:
+            chk.note("ueg-expnt", ST, "%s: not comparable (%s)" % (what, detail))
+
+
+# ----------------------------------------------------------------------------
 # fresh-mutate: an object obtained from a helper and mutated by the caller is fresh
 # ----------------------------------------------------------------------------
 MUTATORS = {"append", "extend", "insert", "pop", "remove", "clear", "update", "setdefault", "sort", "reverse",
@@ -1534,6 +1634,7 @@ def rule_fresh_mutate(chk, prog):
 # ----------------------------------------------------------------------------
 def _analyse_own(chk):
     prog = pf.Program(chk.tree, [ST, FN, TD])
+    mono.link_imported_constants(prog)
     chk.rule("guarded-param", "constant index beyond the sl_level-independent length of a parameter list is "
                               "dominated by sl_level == 'MGGA'")
     chk.rule("spec-total", "raising spec ladders of the UEG routines cover every value the constructor admits")
@@ -1558,6 +1659,10 @@ def _analyse_own(chk):
     chk.rule("fresh-mutate", "an object returned by a helper of the same settings object and mutated by the caller is "
                              "built fresh by the helper (literal / comprehension / copy), never persistent state or a memo")
     chk.guard(rule_fresh_mutate, prog)
+    chk.rule("ueg-expnt", "the UEG exponent (get_cider_exponent at sigma = 0, tau = tau_unif) is clamp-free, independent "
+                          "of tau_mul, linear in a0 and equal to get_cider_exponent_gga at the UEG")
+    chk.guard(rule_ueg_expnt, prog)
+    chk.floor("ueg-expnt", 3, "clamp-free, independent of tval, linear, equal to the GGA exponent")
     chk.rule("ueg-moment", "per spec: UEG value / UEG value of 'se' == Gaussian moment of that kernel (reference table "
                            "shared with C02 chain-j / chain-i), canonical forms")
     chk.guard(rule_ueg_moment, prog)
@@ -1679,6 +1784,18 @@ def mutants(tree):
           "    def _get_ueg_const(self):\n        known_ueg_vals = [",
           "    @staticmethod\n    @__import__(\"functools\").lru_cache(maxsize=None)\n    def _get_ueg_const():\n        known_ueg_vals = [",
           expect="fresh-mutate"),
+        M("get_cider_exponent clamps the rho^(2/3) coefficient at zero", ST,
+          "    if nspin == 1:\n        B = np.pi / 2 ** (2.0 / 3) * (a0 - tau_fac)\n    else:\n        B = np.pi * (a0 - tau_fac)\n    C = np.pi / 2 ** (2.0 / 3) * tau_fac / CFC\n    ascale = B * rho ** (2.0 / 3) + C * tau / rho\n    dadrho = 2 * B / (3 * rho ** (1.0 / 3)) - (C * tau / rho) / rho\n    dadtau",
+          "    if nspin == 1:\n        B = np.pi / 2 ** (2.0 / 3) * max(a0 - tau_fac, 0.0)\n    else:\n        B = np.pi * (a0 - tau_fac)\n    C = np.pi / 2 ** (2.0 / 3) * tau_fac / CFC\n    ascale = B * rho ** (2.0 / 3) + C * tau / rho\n    dadrho = 2 * B / (3 * rho ** (1.0 / 3)) - (C * tau / rho) / rho\n    dadtau",
+          expect="ueg-expnt"),
+        M("MGGA exponent: tau term no longer normalised by CFC (tau_mul does not cancel at the UEG)", ST,
+          "    C = np.pi / 2 ** (2.0 / 3) * tau_fac / CFC\n    ascale = B * rho ** (2.0 / 3) + C * tau / rho\n    dadrho = 2 * B / (3 * rho ** (1.0 / 3)) - (C * tau / rho) / rho\n    dadtau",
+          "    C = np.pi / 2 ** (2.0 / 3) * tau_fac\n    ascale = B * rho ** (2.0 / 3) + C * tau / rho\n    dadrho = 2 * B / (3 * rho ** (1.0 / 3)) - (C * tau / rho) / rho\n    dadtau",
+          expect="ueg-expnt"),
+        M("list ueg_vector fills the tau slot of a constructed UEG vector for both meta-GGA modes", FN,
+          "        inh = 1.0 if self.slmode in [\"nst\", \"npa\"] else 0.0\n",
+          "        x0 = np.zeros((1, max(self.nfeat, 3), 1))\n        x0[0, 0] = rho\n        if self.slmode in [\"nst\", \"npa\"]:\n            x0[0, 2] = CFC * rho ** (5.0 / 3)\n        rho_term, inh_term = self._get_rho_and_inh(x0)\n        inh = inh_term.item()\n",
+          expect="norm-ueg"),
         M("SDMXFull usps interleaved like the normalisers (ueg_vector left alone)", ST,
           "                usps.append(3 + n)\n        for ratio in self.ratios:\n            for n, rdr in self.iterate_l1_terms(ratio):\n                usps.append(3 + n)",
           "                usps.append(3 + n)\n            for n, rdr in self.iterate_l1_terms(ratio):\n                usps.append(3 + n)",
